@@ -192,8 +192,31 @@ def check_mirrors(repo):
             raise ToolError('type mirror drift: %s `%s` has variants %s but prelude/%s has %s' % (src, what, sorted(a), pfile, sorted(b)))
 
 
+CONST_RE = re.compile(r'^(?:pub(?:\([a-z]+\))?\s+)?const\s+([A-Z][A-Z0-9_]*)\s*:\s*(u8|u16|u32|u64|usize|i32|i64|bool)\s*=\s*([0-9][0-9A-Za-z_]*|true|false)\s*;\s*(//.*)?$')
+
+
+def module_consts(repo, paths):
+    """[(name, text, src_path)]: top-level integer/bool constants with a literal value"""
+    out = []
+    for sp in sorted(paths):
+        try:
+            lines = read(os.path.join(repo, sp)).split('\n')
+        except OSError:
+            continue
+        for l in lines:
+            m = CONST_RE.match(l)    # column 0 only: module level
+            if m:
+                out.append((m.group(1), 'pub const %s: %s = %s;' % (m.group(1), m.group(2), m.group(3)), sp))
+    return out
+
+
 def assemble(repo=REPO, mutate_hook=None, only_units=None, canary=False, skip=()):
     check_mirrors(repo)
+    try:
+        with open(os.path.join(VERIF, 'obligations.lock')) as f:
+            genmod.LOCKED_BINDERS = json.load(f).get('binders', {})
+    except (OSError, ValueError):
+        genmod.LOCKED_BINDERS = {}
     fns = specmod.load_dir(os.path.join(VERIF, 'contracts'))
     eff = load_effectful()
     items = [f for f in fns if f.is_item]
@@ -293,6 +316,17 @@ def assemble(repo=REPO, mutate_hook=None, only_units=None, canary=False, skip=()
                 G.obligations[o['oid']] = o
         if cur_emit:
             out.append(('}', None, ('glue', None)))
+        # D2: module-level `const NAME: T = literal;` items of the source files that an extracted body mentions and that nothing in
+        # the generated text declares are emitted verbatim (a literal replaced by a named constant must not leave the subset)
+        sofar = '\n'.join(l for l, _f, _o in out)
+        for cname, ctext, csrc in module_consts(repo, {G.fns[fs.fid].src_path for fs in ufns if fs.fid in G.fns}):
+            if re.search(r'\b(const|static)\s+%s\b' % re.escape(cname), sofar):
+                continue
+            used = any(re.search(r'\b%s\b' % re.escape(cname), l) for fs in ufns if fs.fid in G.fns and G.fns[fs.fid].src_path == csrc
+                       for l, _o in G.fns[fs.fid].out_lines)
+            if used:
+                out.append((ctext, None, ('item', 'const ' + cname)))
+                G.items.append({'item': 'const ' + cname, 'src': csrc, 'what': 'module constant', 'sha': hashlib.sha256(ctext.encode()).hexdigest()[:16]})
         out.append(('} // mod %s' % unit, None, ('glue', None)))
     prelude('lemma')
     out.append(('} // verus!', None, ('glue', None)))
